@@ -3,8 +3,10 @@
 # undoes the change, and records whether a violation was reported (and whether with a concrete input).
 cd /verif
 out=/verif/build/seed_sweep.txt
-: > $out
-for d in seeded/*/; do
+# with arguments: only these seeds (results are appended; seed_table.py keeps the last line per seed and falls back to
+# the result recorded in meta.json for the others)
+if [ $# -gt 0 ]; then list=""; for n in "$@"; do list="$list seeded/$n/"; done; else list=$(ls -d seeded/*/); : > $out; fi
+for d in $list; do
   n=$(basename $d); p=${n%-*}
   git -C /repo apply /verif/$d/patch.diff || { echo "$n APPLY-FAILED" >> $out; continue; }
   ./check $p --tier quick > /verif/build/sweep_$n.log 2>&1; rc=$?
